@@ -968,7 +968,70 @@ func checkKeyAgreement(r *Report, p *Prog) {
 		}
 		_ = a
 	}
-	// item collections are listed under the same prefix
+	// an overwrite forgets the replaced record's registry key: a handler that stores a record with Store.Put and registers
+	// it in the registry also removes the entry of the record it replaced (loaded with Store.Get under the same key)
+	for _, fn := range fns {
+		a := NewAnalysis(p)
+		fc := a.Ctx(fn)
+		var puts, gets []*ssa.Call
+		var updates []*ssa.MapUpdate
+		var deletes []*ssa.Call
+		for _, b := range fn.Blocks {
+			for _, in := range b.Instrs {
+				switch x := in.(type) {
+				case *ssa.MapUpdate:
+					if strings.HasSuffix(fc.AP(x.Map), "Server.serviceProviders") {
+						updates = append(updates, x)
+					}
+				case *ssa.Call:
+					if bi, ok := x.Call.Value.(*ssa.Builtin); ok && bi.Name() == "delete" && len(x.Call.Args) == 2 && strings.HasSuffix(fc.AP(x.Call.Args[0]), "Server.serviceProviders") {
+						deletes = append(deletes, x)
+					}
+					switch storeCallKind(&x.Call) {
+					case "Put":
+						puts = append(puts, x)
+					case "Get":
+						gets = append(gets, x)
+					}
+				}
+			}
+		}
+		if len(puts) == 0 || len(updates) == 0 {
+			continue
+		}
+		keyOf := func(c *ssa.Call) string {
+			if k, ok := c.Call.Args[0].(*ssa.Call); ok && calleeIs(k, "fmt.Sprintf") {
+				f, _ := constStr(k.Call.Args[0])
+				arg := "?"
+				if vs := varargValues(k); len(vs) == 1 {
+					arg = fc.AP(vs[0])
+				}
+				return f + "(" + arg + ")"
+			}
+			return fc.AP(c.Call.Args[0])
+		}
+		for _, put := range puts {
+			okF := false
+			for _, g := range gets {
+				if keyOf(g) != keyOf(put) || !(g.Block() == put.Block() && instrBefore(g.Block(), g, put) || g.Block().Dominates(put.Block())) {
+					continue
+				}
+				target := g.Call.Args[1]
+				if mi, ok := target.(*ssa.MakeInterface); ok {
+					target = mi.X
+				}
+				for _, d := range deletes {
+					if rootOfAddr(d.Call.Args[1]) != rootOfAddr(target) && !derivesFrom(d.Call.Args[1], target, 0) {
+						continue
+					}
+					if d.Block() == put.Block() && instrBefore(put.Block(), put, d) || blockReaches(put.Block(), d.Block()) {
+						okF = true
+					}
+				}
+			}
+			r.Check(okF, rule, fmt.Sprintf("%s: overwriting a stored service unregisters the entity ID it had before", p.FnName(fn)), p.InstrPos(put), "Store.Get(key) before, delete(registry, previous key) after Store.Put(key)", "the record under "+keyOf(put)+" is replaced and the new entity ID registered, but the entity ID of the replaced record is never removed from the registry: a service overwritten with different metadata (or deleted afterwards) keeps receiving assertions under its old entity ID until restart")
+		}
+	}
 	// registry keys agree
 	keys := map[string][]string{}
 	for _, s := range reg {
